@@ -50,6 +50,12 @@ CHECKS = {
                      "result or error diagnostic, no sanitizer report / escaped exception, identical result on a second run",
                 note="finite alphabets and corpus; time bound is a generous constant per input size, nesting depth <= 300 (deeper nesting is quadratic, see DESIGN limits)",
                 technique="exhaustive enumeration of short inputs, truncation points and single-token faults with sanitizers and a watchdog as oracle"),
+    "C06": dict(level="exploration", ref="3/C06",
+                text="exhaustive sweeps of strings (15-symbol alphabet, every byte), <=6-digit numbers across the float32 exponent range, nested "
+                     "arrays, every C01 k<=2 expression tree as code body (str -> compile -> instruction-for-instruction), literal spellings against "
+                     "exact rational nearest-float32, and the formatter on the same bodies",
+                note="trusted: exact rational reference for literals, instruction listing of the driver; formatter class exercised directly",
+                technique="bounded exhaustive enumeration of values/texts with round-trip and reference-value oracles"),
 }
 
 PENDING_REASON = "check not built yet in this round (planned, see DESIGN.md section 3)"
